@@ -14,7 +14,7 @@ git apply "$seed/patch.diff"
 trap 'git -C "$R" checkout -- . ; git -C "$R" clean -fdq' EXIT
 [ -n "${SEEDTEST_NO_BASELINE:-}" ] || "$here/baseline.sh" | tail -1
 for id in "$@"; do
-  out=$(VERIF_EVIDENCE_DIR=/tmp/seed-evidence VERIF_BIN_SUFFIX=.seed "$here/check" "$id" quick 2>&1); rc=$?
+  out=$(VERIF_EVIDENCE_DIR=/tmp/seed-evidence${SEED_BIN_SUFFIX:-} VERIF_BIN_SUFFIX=${SEED_BIN_SUFFIX:-.seed} "$here/check" "$id" quick 2>&1); rc=$?
   if [ $rc -eq 1 ] && echo "$out" | grep -q "^VIOLATION property=$id"; then echo "$id DETECTED (exit 1): $(echo "$out" | grep -A1 '^VIOLATION' | sed -n 2p | cut -c1-260)"
   elif [ $rc -eq 0 ]; then echo "$id MISSED (exit 0)"
   else echo "$id exit=$rc: $(echo "$out" | tail -2 | cut -c1-300)"; fi
